@@ -235,16 +235,50 @@ fn select(op: &FormulaOperator, lhs: Value, rhs: Value) -> (r: Result<Fx, TermEr
         raise AnchorLost("term(): the fold loop `for (op, rhs) in &trm.rhs` not found")
     lbody = loop[0][loop[0].index("{"):]
     inner = vlib.split_statements(lbody)
-    # expected statement shapes, in order
-    shape = [r"let rhs = factor\(&rhs, env, p\)\?;", r"let new_fxn\s*:\s*Box<dyn MechFunction>\s*=\s*match op", r"new_fxn\.solve\(\);",
-             r"let res = new_fxn\.out\(\);", r"term_plan\.push\(new_fxn\);", r"lhs = res;"]
-    if len(inner) != len(shape) or not all(re.match(p, s) for p, s in zip(shape, inner)):
-        raise AnchorLost("term(): loop body no longer has the statement sequence [factor, dispatch, solve, out, push, lhs = res]")
+    # statement-by-statement transcription of the loop body: known shapes are mapped to the abstract
+    # step, anything else is abstracted but keeps its control-flow exits and its writes to `lhs`
+    shapes = [
+        (r"let rhs = factor\(&rhs, env, p\)\?;$", "let rhs = factor(&rhs_list[i].1)?;"),
+        (r"let new_fxn\s*:\s*Box<dyn MechFunction>\s*=\s*match op\b", "let new_fxn = dispatch(op, lhs, rhs)?;"),
+        (r"new_fxn\.solve\(\);$", "/* new_fxn.solve(); */"),
+        (r"let res = new_fxn\.out\(\);$", "let res = solve_out(op, &new_fxn);"),
+        (r"term_plan\.push\(new_fxn\);$", "/* term_plan.push(new_fxn); */"),
+        (r"lhs = res;$", "lhs = res;"),
+    ]
+    trans, unknown = [], 0
+    for st in inner:
+        st1 = st.strip()
+        while True:
+            st2 = re.sub(r"^(//[^\n]*\n\s*|/\*.*?\*/\s*|#\[[^\]]*\]\s*)", "", st1, count=1, flags=re.S)
+            if st2 == st1:
+                break
+            st1 = st2
+        for rx, out in shapes:
+            if re.match(rx, st1, re.S):
+                trans.append(out)
+                break
+        else:
+            unknown += 1
+            wo_closures = re.sub(r"\|[^|]*\|\s*\{", "{", st1)
+            trans.append("// abstracted statement: " + " ".join(st1.split())[:100])
+            if re.search(r"\bbreak\b", wo_closures):
+                trans.append("if nondet() { break; }")
+            if re.search(r"\bcontinue\b", wo_closures):
+                trans.append("if nondet() { i += 1; continue; }")
+            if re.search(r"\breturn\s+Ok\(", wo_closures):
+                trans.append("if nondet() { return Ok(havoc()); }")
+            if re.search(r"\blhs\s*=[^=]", wo_closures):
+                trans.append("lhs = havoc();")
+    loop_body = "\n    ".join(trans)
     items.append("""
 // ---- left fold: one grammar level `a op1 b op2 c ..` evaluates as ((a op1 b) op2 c) ..
 pub struct Factor { pub id: int }
 pub uninterp spec fn eval(f: Factor) -> Value;
 pub uninterp spec fn apply(op: FormulaOperator, l: Value, r: Value) -> Value;
+#[verifier::external_body]
+fn nondet() -> bool { unimplemented!() }
+#[verifier::external_body]
+fn havoc() -> Value { unimplemented!() }
 #[verifier::external_body]
 fn factor(f: &Factor) -> (r: Result<Value, TermErr>) ensures r matches Ok(v) ==> v == eval(*f) { unimplemented!() }
 #[verifier::external_body]
@@ -295,23 +329,20 @@ fn term_fold(lhs0: &Factor, rhs_list: &Vec<(FormulaOperator, Factor)>) -> (r: Re
     decreases rhs_list@.len() - i,
   {
     let op = &rhs_list[i].0;
-    let rhs = factor(&rhs_list[i].1)?;
-    let new_fxn = dispatch(op, lhs, rhs)?;
-    let res = solve_out(op, &new_fxn);
     proof { lemma_fold_snoc(eval(*lhs0), rhs_list@, i as int); }
-    lhs = res;
+    %s
     i += 1;
   }
   proof { assert(rhs_list@.subrange(0, rhs_list@.len() as int) =~= rhs_list@); }
   Ok(lhs)
 }
-""")
+""" % loop_body)
     fns["term_fold"] = "C02.term.left_fold"
     items.append(vlib.verus_canary("canary_c02", "x: u64", []))
     text = "use vstd::prelude::*;\nverus! {\n" + "\n".join(items) + "\n} // verus!\nfn main() {}\n"
     u = VerusUnit("c02_term", text, fns, ["canary_c02"], dropped=[
         "operator table: the arms of `match op` in term() are copied verbatim except that (a) arms whose #[cfg] is false under the default feature set of mech-interpreter are removed and cfg attributes are stripped, (b) `todo!()` arms become `return Err(Todo)`, (c) for the three arms with operand-kind guards (+ on strings, ∈ / ∉ on kinds) only the general-case compile call is kept; every `X {}` compiler is an external_body stand-in returning a tagged Fx over its two arguments",
-        "left fold: the statement sequence of term()'s loop body is checked to be [factor, dispatch, solve, out, push, lhs = res] (anchor check) and the loop is transcribed to an index loop over the same list; factor/dispatch/solve are uninterpreted"])
+        "left fold: the loop `for (op, rhs) in &trm.rhs` is transcribed to an index loop over the same list, statement by statement: `let rhs = factor(..)?`, the dispatch `match op {..}` (one abstract call; its two `continue` arms for `x ∈ <kind>` are part of that call), `solve`/`out`, `push`, `lhs = res`; any OTHER statement is abstracted but keeps its exits (`break`, `continue`, `return Ok`) as nondeterministic exits and its writes to `lhs` as havoc"])
     for fn, on in fns.items():
         plan.ob(on, "verus", "proved", functions=["term()"], what={
             "select": "every operator token of the formula grammar is dispatched to the function it denotes, with operands in (lhs, rhs) order",
